@@ -1,4 +1,5 @@
 import Refine.Lemmas.CodecLayout
+import Refine.Lemmas.CodecGref
 
 /-! record-level round trips: what `ref_export_meshb` writes for vertices, cells, geometry records and
     the CAD blob is read back unchanged by the corresponding loops of `ref_import_meshb` -/
@@ -232,7 +233,7 @@ theorem rdVerts_flatMap {v : Nat} (hv : v ≠ 1) (twod : Bool) (ns : List Vertex
 def geomKey (g : GeomRec) : Int × Nat × Int := (g.node, g.type, g.id)
 
 def GeomOK (cfg : Cfg) (nnode : Int) (g : GeomRec) : Prop :=
-  g.type ≤ 2 ∧ NodeOK cfg nnode g.node ∧ int32 g.id ∧ int32 g.gref ∧ d2i (i2d g.gref) = g.gref ∧
+  g.type ≤ 2 ∧ NodeOK cfg nnode g.node ∧ int32 g.id ∧ int32 g.gref ∧
   (g.type = 0 → g.gref = g.id ∧ g.p0 = 0 ∧ g.p1 = 0) ∧ (g.type = 1 → g.p1 = 0)
 
 theorem any_key_false {acc : List GeomRec} {node : Int} {t : Nat} {id : Int}
@@ -269,7 +270,8 @@ theorem rdGeoms_flatMap {cfg : Cfg} (v : Nat) {t : Nat} (ht : t ≤ 2) {nnode : 
   | nil => intro acc r _ _; simp [rdGeoms]
   | cons g gs ih =>
     intro acc r hgs hnd
-    obtain ⟨hty, _, hnode, hid, hgref, hd2i, h0, h1⟩ := hgs g (List.mem_cons_self ..)
+    obtain ⟨hty, _, hnode, hid, hgref, h0, h1⟩ := hgs g (List.mem_cons_self ..)
+    have hd2i := d2i_i2d hgref
     obtain ⟨n0, n1, n2, n3⟩ := hnode
     have hn1 : int32 (g.node + 1) := by unfold int32; constructor <;> omega
     have hkey : (g.node, t, g.id) ∉ acc.map geomKey := by
